@@ -29,6 +29,8 @@ def run(ctx):
         "name as key and the incoming value unmodified, under that slot's type/value tests; (G7) a positional optional "
         "slot cannot be filled twice; (T3') reassign_arguments only moves values between slots.")
     ctx.not_decided = "equality of the tree with an independent RFC 5228 section 8.2 parse (behavioural)."
+    # each value is recorded in the slot the script wrote it for: a tag slot matches its own spellings only (T2 of C01)
+    c01.t2(ctx, R)
     c01.p1(ctx, R)
     c01.p2(ctx, R)
     c01.p5_p9(ctx, R)
@@ -50,6 +52,9 @@ def run(ctx):
     # parse_file must hand the file's bytes to parse() unchanged (X12 of C02): newline translation or decoding changes the values in the tree
     from .c02 import x12
     x12(ctx, R)
+    # ... and parse() itself scans the text it was given, not a rewritten copy (Z6 of C18)
+    from .c18 import z6
+    z6(ctx, R)
 
 
 def container_writes(ctx, attr, modules):
@@ -149,6 +154,23 @@ def p11(ctx, R):
     ctx.rule("P11", "__up records the current top-level command exactly once, before the parent walk, with the comments collected since the last one")
     f = R.up
     cfg = ctx.cfg(f)
+    # membership / index / remove on the tree containers compare with ==: once a Command class defines __eq__, "already recorded"
+    # means "an equal command was recorded", and a command written twice in the script is taken for its first occurrence
+    eqs = [c.name for c in ctx.program.all_classes() if ctx.program.is_subclass(c, "Command") and "__eq__" in c.methods]
+    if eqs:
+        for g in R.pmod.all_funcs():
+            for n in walk_no_nested(g.node):
+                hit = None
+                if isinstance(n, ast.Compare) and len(n.ops) == 1 and isinstance(n.ops[0], (ast.In, ast.NotIn)) \
+                        and isinstance(n.comparators[0], ast.Attribute) and n.comparators[0].attr in ("result", "children"):
+                    hit = n
+                elif isinstance(n, ast.Call) and isinstance(n.func, ast.Attribute) and n.func.attr in ("index", "remove", "count") \
+                        and isinstance(n.func.value, ast.Attribute) and n.func.value.attr in ("result", "children"):
+                    hit = n
+                if hit is not None:
+                    ctx.violation("P11", g, "equality-on-tree:%s" % norm(hit)[:40], "%s compares commands with ==, and %s defines __eq__: a command "
+                                  "equal to an earlier one is taken for that earlier one" % (norm(hit)[:50], eqs[0]), node=hit,
+                                  witness="`keep; discard; keep;`: the second keep is not recorded")
     recs = [st for st in walk_no_nested(f.node) if isinstance(st, ast.AugAssign) and "result" in norm(st.target)] + \
            [stmt_of(c) for c in walk_no_nested(f.node) if isinstance(c, ast.Call) and call_name(c) == "append" and "result" in norm(c.func.value)]
     if len(recs) != 1:
@@ -169,7 +191,8 @@ def p11(ctx, R):
         ctx.holds("P11", "recording precedes the parent walk")
 
     def toplevel(fc):
-        e, pol = fact_atom(fc)
+        from sa.util import presence_fact
+        e, pol = presence_fact(fc)
         return isinstance(e, ast.Attribute) and e.attr == "parent" and pol is False
     if cfg.guarded(rn, toplevel):
         ctx.holds("P11", "only parentless (top-level) commands go to result")
@@ -221,6 +244,7 @@ def g7(ctx, R):
 
     stores = [st for st in walk_no_nested(cna.node) if isinstance(st, ast.Assign) and any(
         isinstance(t, ast.Subscript) and isinstance(t.value, ast.Attribute) and t.value.attr == "arguments" for t in st.targets)]
+    ATYPE = c01._cna_names(R)[0]
     k = 0
     for st in stores:
         for nd in cfg.nodes_for(st):
@@ -238,6 +262,8 @@ def g7(ctx, R):
             def is_tag_slot(fc):
                 e, pol = fact_atom(fc)
                 cp = cmp_parts(e)
+                if cp and cp[1] in ("Eq", "NotEq") and norm(cp[0]) == ATYPE and const_value(ctx.program, cna, cp[2]) == "tag":
+                    return (cp[1] == "Eq") == pol  # the value is a tag, and it was matched against this slot's types
                 return bool(cp and cp[1] in ("In", "NotIn") and const_value(ctx.program, cna, cp[0]) == "tag" and "['type']" in norm(cp[2])
                             and "extra_arg" not in norm(cp[2]) and ((cp[1] == "In") == pol))
             # every path to the store (or, if the advance follows the store, to the end of the iteration) passes the advance
